@@ -458,9 +458,9 @@ func (g *gen) patterns() []func() {
 func (g *gen) wsPattern() {
 	payload := func(s spec) string { return g.bodyJSON(s) }
 	sess := &wsSession{Subprotocol: g.pick([]string{"graphql-ws", "graphql-transport-ws"})}
-	for k := 0; k < 1+g.r.Intn(3); k++ {
+	for k := 0; k < 1+g.r.Intn(4); k++ {
 		var s spec
-		switch g.r.Intn(6) {
+		switch g.r.Intn(8) {
 		case 0:
 			s = spec{Query: str(`subscription { count(n: 3) }`)}
 		case 1:
@@ -471,6 +471,9 @@ func (g *gen) wsPattern() {
 			s = spec{Query: str(g.pick(invalidDocs))}
 		case 4:
 			s = spec{Query: str(`subscription { s1 }`)}
+		case 5:
+			// a payload may carry a "headers" member; it is that operation's business only
+			s = spec{Query: str(docMirror), Headers: map[string][]string{"X-Leak": {"ws-body-" + g.tag}}}
 		default:
 			s = spec{Query: str(docMirror)}
 		}
